@@ -1226,7 +1226,7 @@ def kv1_roundtrip(t, via: str | None = None):
     """to_kv1(from_kv1(t)) == t structurally (real names, values, order); optionally through a file."""
     import warnings
     from srctools import dmx
-    with warnings.catch_warnings():
+    with warnings.catch_warnings(), U.time_limit():
         warnings.simplefilter('ignore')
         e = dmx.Element.from_kv1(build_kv(t))
         if via is not None:
@@ -1277,6 +1277,7 @@ def kv_classify(t) -> str:
 def search_kv1(ck: Ck) -> None:
     n = ck.budget(1500, 20000)
     found = {}
+    kv_hangs = 0
     for i in range(n):
         via = ck.rng.choice([None, None, None, 'kv2', 'v1', 'v5', 'v2'])
         t = gen_kv(ck.rng, 3, True)
@@ -1289,6 +1290,13 @@ def search_kv1(ck: Ck) -> None:
         except Exception as e:
             p = f'{type(e).__name__}: {e}'
         if p is None:
+            continue
+        if 'HangTimeout' in p:
+            key = f'kv1-bridge{"-via-file" if via else ""}:does-not-terminate'
+            found.setdefault(key, (t, via, p))
+            kv_hangs += 1
+            if kv_hangs > 3:
+                break
             continue
 
         def pred(x, via=via):
@@ -1312,7 +1320,12 @@ def search_kv1(ck: Ck) -> None:
 
 
 # ------------------------------------------------------------------------------------------------ search
-def report_failure(ck: Ck, found: dict, spec: dict, mode: dict) -> None:
+def report_failure(ck: Ck, found: dict, spec: dict, mode: dict, problem0: str = '') -> None:
+    if 'HangTimeout' in problem0:      # every shrinking step would wait for the time limit again: report the input as it is
+        key = f'{mode["fmt"]}:does-not-terminate'
+        if key not in found:
+            found[key] = (spec, mode, f'hang: {problem0}', 10 ** 9)
+        return
     small = U.shrink(spec, lambda s: fails(s, mode), 1500)
     problem, stage = U.roundtrip(small, mode)
     if problem is None:
@@ -1342,6 +1355,7 @@ def search_graphs(ck: Ck) -> None:
     n = ck.budget(2500, 40000)
     found: dict = {}
     shrunk: dict = {}
+    hangs = 0
     cases = [(s, m) for _, s, ms in CORPUS for m in ms]
     for i in range(n):
         if i < len(cases):
@@ -1366,10 +1380,14 @@ def search_graphs(ck: Ck) -> None:
             # do not shrink the same class hundreds of times
             quick_key = f'{mode["fmt"]}:{stage}:' + re.sub(r'[0-9]+', '#', problem)[:28]
             ck.count('graph_roundtrip_failures')
+            if 'HangTimeout' in problem:
+                hangs += 1
+                if hangs > 3:              # each costs the whole time limit: three are enough
+                    break
             if shrunk.get(quick_key, 0) >= 2 or sum(shrunk.values()) >= 60:
                 continue
             shrunk[quick_key] = shrunk.get(quick_key, 0) + 1
-            report_failure(ck, found, spec, mode)
+            report_failure(ck, found, spec, mode, problem)
     ck.sample({'graph_case': {'mode': cases[9][1], 'spec': cases[9][0]}})
     for key, (spec, mode, what, _) in found.items():
         ck.violation(key, what, {'kind': 'graph', 'mode': mode, 'spec': spec,
@@ -1588,7 +1606,17 @@ def run(ck: Ck) -> None:
     stage_s: dict = {}
 
     def stage(name: str, fn, *a) -> None:
-        fn(*a)
+        # a stage that calls into the implementation must not end the check when the implementation raises or hangs where
+        # no handler expects it: the stage is a broken tie, the searches below still run and produce the failing input
+        try:
+            if name.startswith('corr_') or name == 'runtime':
+                with U.time_limit(900.0):      # quick: 2-10 s each, thorough: up to ~3 min each on the loaded machine
+                    fn(*a)
+            else:
+                fn(*a)
+        except Exception as e:
+            ck.obligation(f'stage:{name}', False, f'the stage could not be completed: {type(e).__name__}: {str(e)[:300]}')
+            ck.tie_broken.append(f'stage {name} raised {type(e).__name__}')
         t1 = _time.time()
         stage_s[name] = round(t1 - t0[0], 1)
         t0[0] = t1
